@@ -337,12 +337,25 @@ func emitParse(g *hx.Gen, class, outerTag, mode string, file, pass []byte) {
 
 // ---------------------------------------------------------------- generator
 
+var cov = wire.NewCover()
+
 func gen(g *hx.Gen) {
+	cov.Declare("openssh.keytype", "ssh-rsa", "ssh-ed25519", "ecdsa-sha2-nistp256", "ecdsa-sha2-nistp384", "ecdsa-sha2-nistp521", "other")
+	cov.Declare("openssh.cipher", "none", "aes256-ctr", "aes256-cbc", "other")
+	cov.Declare("openssh.kdf", "none", "bcrypt", "other")
+	cov.Declare("rsaModulusBits", "1024", "1025", "2047", "2048", "3001", "3072")
+	cov.Declare("pem.type", "RSA PRIVATE KEY", "PRIVATE KEY", "EC PRIVATE KEY", "DSA PRIVATE KEY", "other", "no-block")
+	cov.Declare("pem.legacyCipher", "DES", "3DES", "AES128", "AES192", "AES256")
+	cov.Declare("pem.curve", "ecdsa224", "ecdsa256", "ecdsa384", "ecdsa521")
+	cov.Declare("marshal.kind", "rsa", "ed25519", "ecdsa256", "ecdsa384", "ecdsa521")
+	defer cov.Report(g.StatN)
 	n := g.Count(1500, 15000)
 	r := g.R
 	nkg := 0
 	for i := 0; i < n; i++ {
 		switch k := r.Intn(20); {
+		case k < 4:
+			genPem(g, r)
 		case k < 17:
 			genParse(g, r)
 		default:
@@ -356,7 +369,16 @@ func gen(g *hx.Gen) {
 }
 
 func genParse(g *hx.Gen, r *hx.Rand) {
+	ci := r.Intn(48) // 34..47: the file stays valid
 	kind := hx.Pick(r, privKinds)
+	switch ci { // kind-specific classes get a key of that kind
+	case 7, 8, 9, 10:
+		kind = "ed25519"
+	case 11, 12, 13, 14, 15, 32, 33:
+		kind = hx.Pick(r, []string{"ecdsa256", "ecdsa384", "ecdsa521"})
+	case 16, 17, 30, 34, 35:
+		kind = "rsa"
+	}
 	key := wire.NewKey(kind, r.Bytes(2), "")
 	f := &fileSpec{cipher: "none", kdf: "none", numKeys: 1, outer: key.Blob(wire.BodyOpt{}), keytype: key.TypeName(),
 		section: sectionOf(key), comment: hx.Pick(r, []string{"", "c", "user@host", "a longer comment 123", "1234567"})}
@@ -376,7 +398,7 @@ func genParse(g *hx.Gen, r *hx.Rand) {
 	for kind == "rsa" && other.RSA == key.RSA {
 		other = wire.NewKey(kind, r.Bytes(2), "")
 	}
-	switch r.Intn(48) { // 34..47: the file stays valid
+	switch ci {
 	case 0:
 		class, outerTag = "outer-other-key", "mismatch"
 		f.outer = other.Blob(wire.BodyOpt{})
@@ -598,7 +620,32 @@ func genParse(g *hx.Gen, r *hx.Rand) {
 		emitParse(g, class, "mut", mode, append([]byte(magic), r.Bytes(r.Intn(80))...), pass)
 		return
 	}
+	// a kind-specific class on another kind changed nothing: the file is a plain valid one
+	if (strings.HasPrefix(class, "ed-") && kind != "ed25519") || (strings.HasPrefix(class, "ec-") && key.EC == nil) ||
+		((strings.HasPrefix(class, "rsa-") || class == "outer-noncanonical-mpint") && kind != "rsa") {
+		class = "valid"
+		if mode == "pass" {
+			class = "valid-enc"
+		}
+	}
 	g.Stat("kind." + kind)
+	armOf := func(v string, known ...string) string {
+		for _, k := range known {
+			if v == k {
+				return v
+			}
+		}
+		return "other"
+	}
+	cov.Hit("openssh.keytype", armOf(f.keytype, "ssh-rsa", "ssh-ed25519", "ecdsa-sha2-nistp256", "ecdsa-sha2-nistp384", "ecdsa-sha2-nistp521"))
+	cov.Hit("openssh.cipher", armOf(f.cipher, "none", "aes256-ctr", "aes256-cbc"))
+	cov.Hit("openssh.kdf", armOf(f.kdf, "none", "bcrypt"))
+	if kind == "rsa" {
+		cov.Hit("rsaModulusBits", fmt.Sprint(key.RSA.N.BitLen()))
+	}
+	g.Stat("pair.kind-" + kind + "+cipher-" + f.cipher)
+	g.Stat("pair.kind-" + kind + "+class-" + class)
+	g.Stat("pair.mode-" + mode + "+class-" + class)
 	emitParse(g, class, outerTag, mode, f.build(), pass)
 }
 
@@ -624,6 +671,11 @@ func genMarshal(g *hx.Gen, r *hx.Rand, kg int) {
 		fields = fmt.Sprintf("kind=ecdsa bits=%s pt=%s d=%s", kind[5:], hx.Hex(key.PointBytes()), hx.Hex(wire.MpintBytes(key.EC.D)))
 	}
 	g.Stat("marshal." + kind)
+	cov.Hit("marshal.kind", kind)
+	g.Stat(fmt.Sprintf("pair.marshal-%s+encrypted-%v", kind, pass != ""))
+	if kind == "rsa" {
+		cov.Hit("rsaModulusBits", fmt.Sprint(key.RSA.N.BitLen()))
+	}
 	if kg == 1 {
 		g.Stat("clause.marshal-accepted-by-ssh-keygen")
 	}
@@ -795,6 +847,8 @@ func execOp(line string) string {
 		return execParse(o)
 	case "marshal":
 		return execMarshal(o)
+	case "pem":
+		return execPem(o)
 	}
 	return "bad-op"
 }
